@@ -1,4 +1,6 @@
 import NdnModel.Framing
+import NdnModel.ReceiveBytes
+import NdnModel.Sha256
 import NdnGen.C06
 /-  Line protocol for the C06 models.
     `C06 frames <hex>`                → `ok <typ>:<hex>,… | <remhex>`   (`.` = no packet)
@@ -6,13 +8,16 @@ import NdnGen.C06
     `C06 recv <v2|v1> <pit> <fib> <pkt> <pkt> …`
         pit  ::= `.` | entry;entry…      entry ::= <name>=<pend>+<pend>…   pend ::= <id>/<0|1>/<digesthex>
         fib  ::= `.` | <name>;<name>…    name ::= `~` (empty) | <comphex>_<comphex>…
-        pkt  ::= <typ>,<lp>,<tl>,<int>,<data>      (decoder outcomes for this packet)
+        pkt  ::= <typ>,<lp>,<tl>,<int>,<data>[,<wirehex>]   (decoder outcomes for this packet, and its bytes)
         lp   ::= E:<cls> | F:<nack>:<tok>:<frag>   nack ::= ~ | n | <reason>   tok, frag ::= ~ | <hex>
         tl   ::= E:<cls> | <typ>
         int  ::= E:<cls> | <name>:<sigRequired 0|1>:<digestOk 0|1>
         data ::= E:<cls> | <name>:<digesthex>
       answer: one token per packet  `ok:<eff>+<eff>…` (`ok:-` = none) or `err:<cls>`, then `@<pit>`
-        eff ::= N<id>:<reason> | S<id> | I<name>:<tok> -/
+        eff ::= N<id>:<reason> | S<id> | I<name>:<tok>
+      when every pkt carries its bytes the answer continues with ` # ` and the same trace computed by the
+      byte-level pipeline `Ndn.RecvBytes.receiveBytes` (decoder models of C07, SHA-256 of NdnModel/Sha256.lean)
+      from the bytes alone, ignoring the given decoder outcomes -/
 namespace Ndn.Drv.C06
 open Ndn Ndn.Recv Ndn.Framing
 
@@ -76,14 +81,18 @@ def parseDataFacts (s : String) : Option DataFacts :=
   | [n, d] => do pure { name := ← parseName n, digest := ← fromHex d }
   | _ => none
 
-def parsePkt (s : String) : Option (Nat × Decoders) :=
+def parsePkt (s : String) : Option (Nat × Decoders × Option Bytes) :=
   match s.splitOn "," with
-  | [t, lp, tl, i, d] => do
+  | t :: lp :: tl :: i :: d :: rest => do
+    let w ← match rest with
+      | [] => some none
+      | [h] => (fromHex h).map some
+      | _ => none
     let lp ← outcome lp parseLpFacts
     let tl ← outcome tl String.toNat?
     let i ← outcome i parseIntFacts
     let d ← outcome d parseDataFacts
-    pure (← t.toNat?, { lp := fun _ => lp, tl := fun _ => tl, interest := fun _ => i, data := fun _ => d })
+    pure (← t.toNat?, { lp := fun _ => lp, tl := fun _ => tl, interest := fun _ => i, data := fun _ => d }, w)
   | _ => none
 
 def showEff : Effect → String
@@ -91,13 +100,20 @@ def showEff : Effect → String
   | .satisfied i => "S" ++ toString i
   | .invoke p t => "I" ++ showName p ++ ":" ++ showOptHex t
 
-def runPkts (g : Guards) (st : State) : List (Nat × Decoders) → List String
+def runPkts {π} (step : State → π → Except PyErr Res) (st : State) : List π → List String
   | [] => ["@" ++ showPit st.pit]
-  | (t, D) :: r =>
-    match receive g D st t [] with
+  | p :: r =>
+    match step st p with
     | .ok (st', effs) =>
-      ("ok:" ++ (if effs.isEmpty then "-" else "+".intercalate (effs.map showEff))) :: runPkts g st' r
-    | .error e => ("err:" ++ e.name) :: runPkts g st r
+      ("ok:" ++ (if effs.isEmpty then "-" else "+".intercalate (effs.map showEff))) :: runPkts step st' r
+    | .error e => ("err:" ++ e.name) :: runPkts step st r
+
+/-- the trace from the given decoder outcomes, then (when the bytes are there) from the bytes alone -/
+def runBoth (g : Guards) (st : State) (ps : List (Nat × Decoders × Option Bytes)) : List String :=
+  runPkts (fun st (p : Nat × Decoders × Option Bytes) => receive g p.2.1 st p.1 []) st ps ++
+  match ps.mapM fun p => p.2.2.map fun w => (p.1, w) with
+  | some ws => "#" :: runPkts (fun st (p : Nat × Bytes) => RecvBytes.receiveBytes g Sha256.sha256 st p.1 p.2) st ws
+  | none => []
 
 def handle (args : List String) : String :=
   match args with
@@ -119,7 +135,7 @@ def handle (args : List String) : String :=
   | "recv" :: fe :: pit :: fib :: pkts =>
     match (if fe == "v2" then some Gen.C06.v2 else if fe == "v1" then some Gen.C06.v1 else none),
           parsePit pit, parseFib fib, pkts.mapM parsePkt with
-    | some g, some p, some f, some ps => " ".intercalate (runPkts g { pit := p, fib := f } ps)
+    | some g, some p, some f, some ps => " ".intercalate (runBoth g { pit := p, fib := f } ps)
     | _, _, _, _ => "bad-op"
   | _ => "bad-op"
 
